@@ -289,3 +289,28 @@ func VerifC06Canon() {
 	}
 	zzverif.Reach("C06.canon.done")
 }
+
+// VerifSelfVhost: translator validation kernel.
+func VerifSelfVhost() {
+	for _, h := range []string{"Example.COM", "example.com:8080", "example.com.", "a.b.:1", "[::1]:80", "UP.case.:65535"} {
+		c, err := httppkg.CanonicalHost(h)
+		zzverif.Observe("canon:"+h, c, err != nil)
+	}
+	rs := NewRouters()
+	zzverif.Observe("add", rs.Add("a.example.com", "/", "", 1) == nil, rs.Add("A.example.com", "/", "", 2) == nil,
+		rs.Add("*.example.com", "/api", "", 3) == nil, rs.Add("*.example.com", "/", "u", 4) == nil, rs.Add("*", "", "", 5) == nil,
+		rs.Add("a.example.com", "/x/y", "", 6) == nil, rs.Add("a.example.com", "/x", "", 7) == nil)
+	rp := &HTTPReverseProxy{vhostRouter: rs}
+	for _, q := range [][3]string{{"a.example.com", "/x/y/z", ""}, {"a.example.com", "/x/z", ""}, {"b.example.com", "/api/1", ""}, {"b.example.com", "/q", "u"},
+		{"b.example.com", "/q", ""}, {"c.d.example.com", "/api", "v"}, {"other.org", "/", ""}, {"example.com", "/", ""}} {
+		vr, ok := rp.getVhost(q[0], q[1], q[2])
+		p := -1
+		if ok {
+			p = vr.payload.(int)
+		}
+		zzverif.Observe("get:"+q[0]+q[1]+":"+q[2], ok, p)
+	}
+	rs.Del("a.example.com", "/x/y", "")
+	vr, ok := rp.getVhost("a.example.com", "/x/y/z", "")
+	zzverif.Observe("afterdel", ok, vr.payload.(int))
+}
